@@ -26,7 +26,7 @@ from ..corpus import b64, unb64
 PROP = "C14"
 LEVEL = "exploration"
 COUNTS = {"quick": 1000, "thorough": 20000}
-WALL = {"quick": 170, "thorough": 3300}
+WALL = {"quick": 900, "thorough": 6000}
 RULE = (
     "scenario = seeded history of 1-3 CLI scan/fix operations over 1-4 pool documents (edge documents preferred: empty, one line, "
     "no final newline, pragma-only, CRLF, front matter) with 1-3 probe plugins (scan-only or fix-capable at a seeded level; one of "
